@@ -231,7 +231,16 @@ namespace nmtools::meta
                         if constexpr (is_constant_index_array_v<dst_shape_t>) {
                             return as_value_v<append_type_t<init_type,ct<I>>>;
                         } else {
-                            return as_value_v<append_type_t<init_type,clipped_size_t<I>>>;
+                            // clipped dst: `res` is only the reshape for the MAXIMA of dst; an extent is bounded by its own
+                            // maximum, the inferred (-1) extent by the number of elements of the (constant) src
+                            constexpr auto c_min = clipped_min_v<dst_shape_t>;
+                            constexpr auto c_max = clipped_max_v<dst_shape_t>;
+                            if constexpr (at(c_min,index) < 0) {
+                                constexpr auto numel = index::product(src_shape);
+                                return as_value_v<append_type_t<init_type,clipped_size_t<(numel > 0 ? numel : 1)>>>;
+                            } else {
+                                return as_value_v<append_type_t<init_type,clipped_size_t<at(c_max,index)>>>;
+                            }
                         }
                     }, as_value_v<nmtools_tuple<>>);
                 }
@@ -301,6 +310,11 @@ namespace nmtools::meta
                 constexpr auto minus_1_count = nmtools::get<0>(result);
                 if constexpr (minus_1_count > 1) {
                     return as_value_v<error::SHAPE_RESHAPE_INVALID<src_shape_t,dst_shape_t>>;
+                } else if constexpr (minus_1_count == 1) {
+                    // the inferred extent is numel(src) / product(other extents of dst): with a run-time src it has no
+                    // compile-time bound (the product of the maxima of dst is not one), so the result is not clipped
+                    using type = nmtools_array<nm_size_t,N>;
+                    return as_value_v<type>;
                 } else {
                     using nmtools::at;
                     constexpr auto negative_shape = nmtools::get<1>(result);
